@@ -13,7 +13,8 @@ import RpgpModel.Gen.Constants
 
 Numeric literals come from `Gen` (re-extracted from the source on every run).
 -/
-namespace Rpgp
+namespace Rpgp.Sym
+open Rpgp
 
 /-- SHA-1 (MDC, secret-key checksum): OpenPGP hash id 2 -/
 def sha1Id : Nat := 2
@@ -22,10 +23,10 @@ def sha256Id : Nat := 8
 /-- SHA-512 (HKDF of X448): OpenPGP hash id 10 -/
 def sha512Id : Nat := 10
 
-end Rpgp
+end Rpgp.Sym
 
-namespace Rpgp.S2k
-open Rpgp
+namespace Rpgp.Sym.S2k
+open Rpgp Rpgp.Sym
 
 /-- `HashAlgorithm::digest_size` — output sizes of the RustCrypto digests behind the ids
 (`None` for ids without an implementation). -/
@@ -189,4 +190,4 @@ def plan (s : Spec) (pw : Bytes) (ks : Nat) : Option PExpr :=
       | none => none
       | some d => some (hashedPlan alg d (s.bodyPlan pw) ks)
 
-end Rpgp.S2k
+end Rpgp.Sym.S2k
